@@ -553,18 +553,20 @@ impl<'a> ExecutorContext<'a> {
         let exec_result = status
             .unwrap_or_else(|| create_execution_result(exit_status, &child_acc.errors, leaked));
 
-        // Read from the environment map. If there's an error here, add it to the list of child errors.
+        // Read from the environment map. If there's an error here, add it to the list of child
+        // errors and treat the script as having failed to execute: otherwise the script would be
+        // reported as passing while all of the variables it wrote are silently dropped.
         let mut errors: Vec<_> = child_acc.errors.into_iter().map(ChildError::from).collect();
-        let env_map = if exec_result.is_success() {
+        let (exec_result, env_map) = if exec_result.is_success() {
             match parse_env_file(&env_path).await {
-                Ok(env_map) => Some(env_map),
+                Ok(env_map) => (exec_result, Some(env_map)),
                 Err(error) => {
                     errors.push(ChildError::SetupScriptOutput(error));
-                    None
+                    (ExecutionResult::ExecFail, None)
                 }
             }
         } else {
-            None
+            (exec_result, None)
         };
 
         Ok(InternalSetupScriptExecuteStatus {
